@@ -93,7 +93,7 @@ def resLineLoop : Nat → Conn → R
             let c := c.modTx uid (fun t => { t with resContentEncodingProcessing := 1 })
             let c := { c with out := { c.out with consume := c.out.read } }
             let body := if dataNull then none else some (data.take (line.length + chompResult))
-            let (c, rc) := resProcessBodyData body c
+            let (c, rc) := resProcessBodyData cfg body c
             let c := { c with out := c.out.clearBuffer }
             if rc != .ok then (c, rc) else
             if c.out.len ≤ c.out.read then
@@ -339,7 +339,7 @@ def resBodyIdentityClKnown (c : Conn) : R :=
   let n : Int := if avail ≥ c.out.bodyDataLeft then c.out.bodyDataLeft else avail
   if c.out.status == STREAM_CLOSED then
     let c := { c with outState := .finalize }
-    resProcessBodyData none c
+    resProcessBodyData cfg none c
   else if n == 0 then (c, .data) else
   let data := if c.out.curNull then none else some (sliceCur c.out c.out.read (c.out.read + n))
   let (c, rc) := resProcessBodyDataGap data (if c.out.curNull then n.toNat else 0) c
@@ -347,12 +347,12 @@ def resBodyIdentityClKnown (c : Conn) : R :=
   let c := { c with out := { c.out.advance n with bodyDataLeft := c.out.bodyDataLeft - n } }
   if c.out.bodyDataLeft == 0 then
     let c := { c with outState := .finalize }
-    resProcessBodyData none c
+    resProcessBodyData cfg none c
   else (c, .data)
 where
   /-- body data, or a gap (NULL data with a length): lengths still advance, callbacks see NULL -/
   resProcessBodyDataGap (data : Option Bytes) (gapLen : Nat) (c : Conn) : R :=
-    if gapLen == 0 then resProcessBodyData data c else
+    if gapLen == 0 then resProcessBodyData cfg data c else
     match c.out.tx with
     | none => (c, .error)
     | some uid =>
@@ -371,7 +371,7 @@ def resBodyIdentityStreamClose (c : Conn) : R :=
   let r : R :=
     if n != 0 then
       let data := if c.out.curNull then none else some (sliceCur c.out c.out.read (c.out.read + n))
-      let (c, rc) := resBodyIdentityClKnown.resProcessBodyDataGap data (if c.out.curNull then n.toNat else 0) c
+      let (c, rc) := resBodyIdentityClKnown.resProcessBodyDataGap cfg data (if c.out.curNull then n.toNat else 0) c
       if rc != .ok then (c, rc) else ({ c with out := c.out.advance n }, .ok)
     else (c, .ok)
   r >>? fun c =>
@@ -395,7 +395,7 @@ def resBodyChunkedData (c : Conn) : R :=
   let n : Int := if avail ≥ c.out.chunkedLength then c.out.chunkedLength else avail
   if n == 0 then (c, .data) else
   let data := sliceCur c.out c.out.read (c.out.read + n)
-  let (c, rc) := resProcessBodyData (some data) c
+  let (c, rc) := resProcessBodyData cfg (some data) c
   if rc != .ok then (c, rc) else
   let c := { c with out := { c.out.advance n with chunkedLength := c.out.chunkedLength - n } }
   if c.out.chunkedLength == 0 then ({ c with outState := .bodyChunkedDataEnd }, .ok) else (c, .data)
@@ -479,7 +479,7 @@ def resFinalize (c : Conn) : R :=
     let c := { c with out := d }
     if data.length == 0 then txStateResponseCompleteEx cfg uid c else
     if dataNull || treatResponseLineAsBody data then
-      let (c, rc) := resProcessBodyData (some data) c
+      let (c, rc) := resProcessBodyData cfg (some data) c
       ({ c with out := c.out.clearBuffer }, rc)
     else
       -- un-read the probed line; only the part of it that arrived with earlier chunks stays buffered
@@ -496,10 +496,10 @@ def resStateFn (c : Conn) : R :=
   | .line => resLine cfg c
   | .headers => resHeaders cfg c
   | .bodyDetermine => resBodyDetermine cfg c
-  | .bodyIdentityClKnown => resBodyIdentityClKnown c
-  | .bodyIdentityStreamClose => resBodyIdentityStreamClose c
+  | .bodyIdentityClKnown => resBodyIdentityClKnown cfg c
+  | .bodyIdentityStreamClose => resBodyIdentityStreamClose cfg c
   | .bodyChunkedLength => resBodyChunkedLength cfg c
-  | .bodyChunkedData => resBodyChunkedData c
+  | .bodyChunkedData => resBodyChunkedData cfg c
   | .bodyChunkedDataEnd => resBodyChunkedDataEnd c
   | .finalize => resFinalize cfg c
 
